@@ -73,6 +73,109 @@ pub fn exact_planned(prop: &str, n: usize, dir: FftDirection, full_basis: bool, 
     }
 }
 
+
+/// 5*2^18 ... 2^22: 9 and more radix-4 layers, every residue of n mod 4 (3^13 and 5^9 are odd, 2*3^12*... even but not
+/// divisible by 4), the first lengths whose tables exceed 2^20 entries.
+pub fn huge_list(thorough: bool) -> Vec<usize> {
+    let mut v = vec![5usize << 18, 1 << 21, 3 << 20, 1 << 22, 1594323 /* 3^13 */, 1953125 /* 5^9 */, 2 * 531441 * 3 /* 2*3^13 */];
+    if thorough {
+        v.extend_from_slice(&[7 << 18, 9 << 19, 3 << 21, 1 << 23, 7 * 177147 /* 7*3^11 */, 11 * 177147, 2 * 1953125, 4782969 /* 3^14 */]);
+    }
+    v
+}
+
+/// Lengths in the millions (bit-reversal with 9+ radix-4 layers, 32-bit index products, ...): no trig table is built.
+/// Inputs with trig-free spectra (e_0, ones, alternating) plus two impulses whose spectrum is evaluated directly in
+/// f64 from an integer-reduced angle (error ~1e-16, far inside the allowance). One job per (n, planner, type).
+pub fn huge_lengths(prop: &'static str, lens: &[usize], tol_mult: f64, rep: &mut Report) {
+    let mut jobs: Vec<(usize, PK, bool)> = Vec::new();
+    for &n in lens {
+        for pk in PK::DISTINCT {
+            for is32 in [true, false] {
+                jobs.push((n, pk, is32));
+            }
+        }
+    }
+    fn one<T: Real>(prop: &str, n: usize, pk: PK, tol_mult: f64, rep: &mut Report) {
+        let mut pl = match AnyPlanner::<T>::new(pk) {
+            Some(p) => p,
+            None => return,
+        };
+        let b = bound::<T>(n) * tol_mult + 4.0 * f64::EPSILON;
+        for d in DIRS {
+            let f = match plan_catch(&mut pl, n, d) {
+                Ok(f) => f,
+                Err(m) => {
+                    rep.violate(format!("{}|part=huge|pk={}|T={}|dir={}|n={}|in=plan", prop, pk.name(), T::NAME, dir_name(d), n), format!("planning panicked: {}", m), Json::Null);
+                    continue;
+                }
+            };
+            rep.states += 1;
+            let sign = if d == FftDirection::Forward { -1.0 } else { 1.0 };
+            let tone = |j: usize| -> Vec<C<f64>> {
+                (0..n)
+                    .map(|k| {
+                        let idx = ((j as u128 * k as u128) % n as u128) as f64;
+                        let a = sign * 2.0 * std::f64::consts::PI * idx / n as f64;
+                        C::new(a.cos(), a.sin())
+                    })
+                    .collect()
+            };
+            let mut delta = |k: usize| -> Vec<C<f64>> {
+                let mut v = vec![C::new(0.0, 0.0); n];
+                v[k] = C::new(n as f64, 0.0);
+                v
+            };
+            let imp = |j: usize| -> Vec<C<f64>> {
+                let mut v = vec![C::new(0.0, 0.0); n];
+                v[j] = C::new(1.0, 0.0);
+                v
+            };
+            let mut cases: Vec<(String, Vec<C<f64>>, Vec<C<f64>>)> = vec![
+                ("impulse:re:0".into(), imp(0), vec![C::new(1.0, 0.0); n]),
+                ("ones".into(), vec![C::new(1.0, 0.0); n], delta(0)),
+                ("impulse:re:1".into(), imp(1), tone(1)),
+                (format!("impulse:re:{}", n / 2 + 1), imp(n / 2 + 1), tone(n / 2 + 1)),
+            ];
+            if n % 2 == 0 {
+                cases.push(("alternating".into(), (0..n).map(|j| C::new(if j % 2 == 0 { 1.0 } else { -1.0 }, 0.0)).collect(), delta(n / 2)));
+            }
+            for (name, x, want) in &cases {
+                let xt: Vec<C<T>> = from_c64(x);
+                let wn = crate::refdft::norm2(want);
+                for e in [Entry::InPlace, Entry::Immut] {
+                    let key = format!("{}|part=huge|pk={}|T={}|dir={}|n={}|entry={}|in={}", prop, pk.name(), T::NAME, dir_name(d), n, e.name(), name);
+                    rep.evaluations += 1;
+                    rep.transitions += 1;
+                    rep.distinct_nontrivial += 1;
+                    match call_plain(f.as_ref(), e, &xt).out {
+                        None => rep.violate(key, "well-shaped call panicked".into(), Json::Null),
+                        Some(o) => {
+                            let diff: Vec<C<f64>> = o.iter().zip(want).map(|(a, w)| C::new(a.re.to64() - w.re, a.im.to64() - w.im)).collect();
+                            let err = crate::refdft::norm2(&diff);
+                            if !(err <= b * wn) {
+                                rep.violate(key, format!("relative L2 error {:e} exceeds allowance {:e}", err / wn, b), Json::Null);
+                            }
+                        }
+                    }
+                }
+            }
+        }
+    }
+    let parts = par_map(&jobs, |_, &(n, pk, is32)| {
+        let mut r = Report::new();
+        if is32 {
+            one::<f32>(prop, n, pk, tol_mult, &mut r);
+        } else {
+            one::<f64>(prop, n, pk, tol_mult, &mut r);
+        }
+        r
+    });
+    for p in parts {
+        rep.merge(p);
+    }
+}
+
 pub fn run(ctx: &Ctx) -> i32 {
     if let Some(r) = &ctx.replay {
         return replay(ctx, r);
@@ -112,6 +215,10 @@ pub fn run(ctx: &Ctx) -> i32 {
     let br = floatlayer::run(&cfg_b);
     rep.merge(br);
     rep.set("lengths_beyond_2^16", Json::Arr(big.iter().map(|x| Json::Int(*x as i64)).collect()));
+    // lengths in the millions, trig-free / direct references
+    let huge: Vec<usize> = huge_list(t == crate::framework::Tier::Thorough);
+    huge_lengths("C01", &huge, TOL_MULT, &mut rep);
+    rep.set("huge_lengths", Json::Arr(huge.iter().map(|x| Json::Int(*x as i64)).collect()));
     rep.set("all_primes_up_to", prime_hi);
     rep.set("primes_run", primes.len());
     // ---- exact layer
@@ -146,7 +253,7 @@ pub fn run(ctx: &Ctx) -> i32 {
     rep.set("pool_lengths_float", Json::Arr(pool_sel.iter().map(|x| Json::Int(x.0 as i64)).collect()));
     rep.set("pool_lengths_exact", Json::Arr(ex_pool.iter().map(|x| Json::Int(x.0 as i64)).collect()));
     rep.rule = format!(
-        "float layer: planners {{auto,scalar,sse,avx}} x {{f32,f64}} x {{fwd,inv}} x 4 entry points x every n in 0..={dn} with the complete real basis (2n impulses) and the STRUCT alphabet, plus {pc} computed pool lengths up to {ph} with 22 impulse positions x2 and closed-form STRUCT members, plus EVERY prime up to {pp} (planners scalar/sse/avx, 22 impulse positions x2), plus one length of every plan class just above 2^16 and up to ~2^20 (listed under lengths_beyond_2^16; closed-form STRUCT members and 22 impulse positions x2); oracle: relative L2 error against a double-double naive DFT <= {tm}*16*eps*log2(2n). exact layer: FftPlanner::<Fp> (prime field, two primes) x {{fwd,inv}} x 4 entry points x every n in 0..={en} with the complete basis, zero vector and a dense vector, plus pool lengths with stratified impulses; oracle: equality in F_p, no data*data product, no poison. A case is non-trivial if n >= 2 and the input is non-zero; distinct = distinct (config, n, entry, input) tuples.",
+        "float layer: planners {{auto,scalar,sse,avx}} x {{f32,f64}} x {{fwd,inv}} x 4 entry points x every n in 0..={dn} with the complete real basis (2n impulses) and the STRUCT alphabet, plus {pc} computed pool lengths up to {ph} with 22 impulse positions x2 and closed-form STRUCT members, plus EVERY prime up to {pp} (planners scalar/sse/avx, 22 impulse positions x2), plus one length of every plan class just above 2^16 and up to ~2^20 (listed under lengths_beyond_2^16; closed-form STRUCT members and 22 impulse positions x2), plus the huge_lengths (5*2^18 ... 2^22 / 2^23, 3^13, 5^9, 2*3^13: 9 and more radix-4 layers, tables above 2^20 entries, every residue mod 4; three planners, in-place and immutable entry, impulses e_0, e_1, e_(n/2+1), ones, alternating against directly evaluated spectra); oracle: relative L2 error against a double-double naive DFT <= {tm}*16*eps*log2(2n). exact layer: FftPlanner::<Fp> (prime field, two primes) x {{fwd,inv}} x 4 entry points x every n in 0..={en} with the complete basis, zero vector and a dense vector, plus pool lengths with stratified impulses; oracle: equality in F_p, no data*data product, no poison. A case is non-trivial if n >= 2 and the input is non-zero; distinct = distinct (config, n, entry, input) tuples.",
         dn = dense_n,
         pc = pool_sel.len(),
         ph = t.pick(1 << 16, 1 << 20),
